@@ -704,6 +704,13 @@ def t2_run(sc, notes=None, want_codes=True):
                     if k in DOCUMENTED_ADJUST:
                         if x.user is not None and k in x.user:
                             notes.setdefault("user_options_adjusted_by_run", set()).add(f"{k}: {was!r} -> {now!r}")
+                            # the mode-forced settings of STOCHASTIC targets are observations (DESIGN C20 scope note); but a value the user
+                            # supplied must survive a run where no such mode is entered: a deterministic run rewrites none of them
+                            # (except the unsupported stobads flag), and a user-supplied noise_size (filled in only when None) never changes
+                            level = int(x.bads.optim_state.get("uncertainty_handling_level", 0) or 0)
+                            if (level == 0 and k != "stobads") or (k == "noise_size" and was is not None):
+                                find("user-option-overwritten-by-run",
+                                     f"optimize() of instance {i} ({'deterministic' if level == 0 else 'stochastic'} target) replaced the user-supplied option {k!r}: {was!r} -> {now!r}")
                         else:
                             notes.setdefault("defaults_adjusted_by_run", set()).add(k)
                     else:
